@@ -668,7 +668,8 @@ def run(tier: str, replay=None) -> int:
             # the reference parser (C's rules) rejects the text, Lark accepts it
             if semi_accepts_non_c(tl):
                 sc["optional_semicolon_accepts_non_C"] += 1
-                semi_witness = semi_witness or txt
+                if semi_witness is None or len(txt) < len(semi_witness):
+                    semi_witness = txt
             else:
                 viol.append(dict(pay, what="Lark accepts a statement nest the reference parser (C's rules) rejects", lark_tree=got))
             continue
@@ -681,7 +682,8 @@ def run(tier: str, replay=None) -> int:
             sc["dangling_shape_but_trees_agree"] += dg != 0
         elif got == drop_semi(ref):
             sc["optional_semicolon_after_block"] += 1
-            semi_witness = semi_witness or txt
+            if semi_witness is None or len(txt) < len(semi_witness):
+                semi_witness = txt
         elif kw:
             # candidate finding: a reserved word was taken as an identifier (`if (c) ;` -> call of "if", `else ;` -> identifier)
             sc["keyword_as_identifier"] += 1
@@ -697,12 +699,23 @@ def run(tier: str, replay=None) -> int:
         else:
             viol.append(dict(pay, what="Lark's statement tree differs from the C-structured tree of the reference statement parser"
                                        + (" (beyond else attachment)" if dg else ""), lark_tree=got, reference_tree=ref))
-    if semi_witness is not None:
-        res.notes.append("compound statement swallows a following ';' (grammar: \"{\" block_item_list \"}\" [\";\"]): "
-                         f"{sc['optional_semicolon_after_block']} nests lose an empty statement, {sc['optional_semicolon_accepts_non_C']} non-C texts accepted; e.g. {semi_witness}")
-    if kw_witness is not None:
-        res.notes.append("reserved words are not reserved (IDENTIFIER matches if/else/for): `if (c) ;` parses as the expression statement "
-                         f"calling a sub-routine `if`, `else ;` as the identifier `else`: {sc['keyword_as_identifier']} nests; e.g. {kw_witness}")
+    # deviations of the real grammar from C structure other than the listed dangling else.  They are counted (never hidden by a
+    # normalisation); once the main session lists them in known_findings.json under these ids they are printed as KNOWN-FINDING.
+    for cid, wit, n_, what in (
+        ("C17-compound-optional-semicolon", semi_witness, sc["optional_semicolon_after_block"] + sc["optional_semicolon_accepts_non_C"],
+         "a non-empty compound statement swallows a following ';' (grammar: \"{\" block_item_list \"}\" [\";\"]): the empty statement of `{ x; } ;` "
+         "is missing from the tree, and the non-C text `if (a) { x; } ; else y;` is accepted"),
+        ("C17-keyword-as-identifier", kw_witness, sc["keyword_as_identifier"],
+         "reserved words are not reserved (IDENTIFIER matches if/else/for): `if (c) ;` parses as the expression statement calling a sub-routine "
+         "`if`, `if (c) -x;` as the subtraction `if(c) - x`, `else ;` as the identifier `else`"),
+    ):
+        if wit is None:
+            continue
+        k = [k for k in known_for(PROP) if k["id"] == cid]
+        if k:
+            res.known(f"{k[0]['id']}: {k[0]['what']} [witness: {k[0].get('witness', wit)}] ({k[0].get('site', 'Resources/Hexagon/grammar.lark')})")
+        else:
+            res.notes.append(f"candidate finding {cid} (not listed, reported for triage): {what}; {n_} nests; e.g. {wit}")
     # statement-level structure: else binds to the nearest if; nesting; statement-expressions
     stmt_cases = {
         "{ if (a) { if (b) RdV = 1; else RdV = 2; } }": "inner",
